@@ -117,6 +117,7 @@ type knownFile struct {
 var (
 	verifDir = "/verif"
 	repoDir  = "/repo"
+	outDir   = "" // where evidence and replay files go (default: <verifDir>/evidence); VERIF_OUT overrides (self-tests)
 )
 
 func fatal(f string, a ...any) {
@@ -257,6 +258,10 @@ func main() {
 	}
 	if v := os.Getenv("VERIF_REPO"); v != "" {
 		repoDir = v
+	}
+	outDir = filepath.Join(verifDir, "evidence")
+	if v := os.Getenv("VERIF_OUT"); v != "" {
+		outDir = v
 	}
 	if len(os.Args) < 2 {
 		fatal("usage: vcheck <Cxx> <quick|thorough> | replay <file> | list | litmus")
@@ -587,8 +592,8 @@ func check(prop, tier string) int {
 			reps = append(reps, rep{sig: a.f.V.sig(), a: a, kf: kf, total: a.f.Count})
 		}
 	}
-	os.MkdirAll(filepath.Join(verifDir, "evidence", "replays"), 0o755)
-	old, _ := filepath.Glob(filepath.Join(verifDir, "evidence", "replays", prop+"-*.json"))
+	os.MkdirAll(filepath.Join(outDir, "replays"), 0o755)
+	old, _ := filepath.Glob(filepath.Join(outDir, "replays", prop+"-*.json"))
 	for _, o := range old {
 		os.Remove(o)
 	}
@@ -607,7 +612,7 @@ func check(prop, tier string) int {
 			continue
 		}
 		// a new violation: write its replay file, re-run it twice
-		rp := filepath.Join(verifDir, "evidence", "replays", fmt.Sprintf("%s-%d.json", prop, i))
+		rp := filepath.Join(outDir, "replays", fmt.Sprintf("%s-%d.json", prop, i))
 		scn, seqCase := r.a.scn, ""
 		if j := strings.Index(scn, "#"); j >= 0 {
 			scn, seqCase = scn[:j], scn[j+1:]
@@ -694,7 +699,7 @@ func check(prop, tier string) int {
 		"violations": nviol,
 	}
 	b, _ := json.MarshalIndent(ev, "", " ")
-	if err := os.WriteFile(filepath.Join(verifDir, "evidence", prop+".json"), b, 0o644); err != nil {
+	if err := os.WriteFile(filepath.Join(outDir, prop+".json"), b, 0o644); err != nil {
 		fatal("%v", err)
 	}
 	fmt.Printf("%s %s: %d scenarios, %d executions, %d transitions, %d states, exhaustive=%v, %d new violations, %d known, %.1fs\n",
